@@ -50,11 +50,9 @@ func (m *Migrator) MigrateFiles(patterns []string, outputPath string) error {
 	var results []MigrationResult
 	var allWarnings []Warning
 
-	// Create a shared TypeConverter for all transforms (using first package's types)
+	// A shared TypeConverter for all transforms. Types are spelled relative to the package that
+	// holds the wire configuration, which need not be the first one a pattern like ./... matches.
 	var sharedTypeConverter *TypeConverter
-	if len(pkgs) > 0 && pkgs[0].Types != nil {
-		sharedTypeConverter = NewTypeConverter(pkgs[0].Types)
-	}
 
 	for _, pkg := range pkgs {
 		// Build a map from syntax position to file path
@@ -98,6 +96,10 @@ func (m *Migrator) MigrateFiles(patterns []string, outputPath string) error {
 					Message: fmt.Sprintf("No wire patterns found in %s", filePath),
 				})
 				continue
+			}
+
+			if sharedTypeConverter == nil && pkg.Types != nil {
+				sharedTypeConverter = NewTypeConverter(pkg.Types)
 			}
 
 			// Transform patterns
